@@ -205,8 +205,26 @@ class EvalScn:
         return out
 
     @staticmethod
+    def norm_trace(tr):
+        """events of conc children (obsC / note) may come in any order: sort each maximal run"""
+        out, run = [], []
+        for ev in tr or []:
+            if ev.get("fn") in ("obsC", "note"):
+                run.append(json.dumps(ev, sort_keys=True))
+            else:
+                out.extend(sorted(run)); run = []
+                out.append(json.dumps(ev, sort_keys=True))
+        out.extend(sorted(run))
+        return out
+
+    @staticmethod
     def compare(c, o):
         issues = []
+        pr = c.get("probe")
+        if pr and pr.get("got") != pr.get("want"):
+            issues.append({"aspect": "conc-locals", "kind": "impl-vs-spec", "method": c.get("mode"),
+                           "detail": "%d concurrent executions of one rule entity, each returning its own tick(): got %s, expected %s | %s"
+                                     % (pr.get("k"), pr.get("got"), pr.get("want"), pr.get("text"))})
         if c.get("build"):
             return [{"aspect": "build", "kind": "impl-vs-model", "method": c.get("mode"),
                      "detail": "generated text rejected: %s" % c["build"][:300]}]
@@ -264,7 +282,7 @@ class EvalScn:
                     a, b = EvalScn.norm_env(res.get("env")), EvalScn.norm_env(m.get("env"))
                     diff = {n: (a.get(n), b.get(n)) for n in set(a) | set(b) if a.get(n) != b.get(n)}
                     add("state", "host state differs (impl, %s): %s" % (side, json.dumps(diff)[:400]))
-                if (res.get("trace") or []) != (m.get("trace") or []):
+                if EvalScn.norm_trace(res.get("trace")) != EvalScn.norm_trace(m.get("trace")):
                     add("trace", "observer calls impl %s, %s %s" % (json.dumps(res.get("trace"))[:200], side, json.dumps(m.get("trace"))[:200]))
         return issues
 
